@@ -1239,7 +1239,7 @@ int main(int argc, char **argv)
     while (std::getline(std::cin, line))
         lines.push_back(line);
     size_t start = 0;
-    const unsigned per_case_timeout = 60;
+    const unsigned per_case_timeout = 40;
     while (start < lines.size()) {
         int fd[2];
         if (pipe(fd) != 0)
